@@ -584,6 +584,7 @@ fn lookalikes(rng: &mut Rng, tag: &str) -> Vec<u8> {
 }
 
 fn run_session_case(ctx: &mut Ctx, rng: &mut Rng, resp: &[Vec<u8>], untagged: &[Vec<u8>], prop: &str) {
+    // ---- generation
     let ncmd = rng.range(1, 6) as usize;
     let mut plans = vec![];
     let mut server = vec![];
@@ -636,6 +637,14 @@ fn run_session_case(ctx: &mut Ctx, rng: &mut Rng, resp: &[Vec<u8>], untagged: &[
     io.fscript = f.into();
     io.eof_at_end = eof_at_end;
 
+    exec_session(ctx, io, server, plans, prop);
+}
+
+/// run a prepared session (scripted transport, server output, command plans) on the implementation,
+/// apply the oracles, queue the effective trace for the model
+fn exec_session(ctx: &mut Ctx, io: MockIo, server: Vec<u8>, plans: Vec<CmdPlan>, prop: &str) {
+    let ncmd = plans.len();
+    let first_issue = 1u64;
     let mut client = Client::verif_new(io);
     let (_wk, waker) = counting_waker();
     let mut cx = Context::from_waker(&waker);
@@ -687,7 +696,7 @@ fn run_session_case(ctx: &mut Ctx, rng: &mut Rng, resp: &[Vec<u8>], untagged: &[
                 let (calls, pend_seen, silent) = {
                     let io = stream_io(&mut stream);
                     let (c, p) = io.take_calls();
-                    (c, p, io.rscript.is_empty() && io.read_side_silent() && io.wscript.is_empty() && io.fscript.is_empty())
+                    (c, p, io.rscript.is_empty() && io.read_side_silent() && io.wscript.is_empty() && io.fscript.is_empty() && io.unified.as_ref().map_or(true, |u| u.is_empty()))
                 };
                 let last = polls.pop().unwrap();
                 polls.push(format!("{}:{}", calls, last));
@@ -1088,6 +1097,38 @@ fn main() {
                 }
                 println!("stream {}", show_bytes(&stream));
                 run_frames_case(&mut ctx, &stream, script, eof, "replay");
+            } else if fields.len() >= 4 && fields[0] == "session" {
+                // session <read events> <write/flush events> <args:polls,...>
+                let mut io = MockIo::default();
+                let mut server: Vec<u8> = vec![];
+                let mut script: Vec<RDir> = vec![];
+                if fields[1] != "-" {
+                    for ev in fields[1].split(',') {
+                        if let Some(h) = ev.strip_prefix('d') {
+                            let b = unhex(h);
+                            script.push(RDir::Go(b.len()));
+                            server.extend_from_slice(&b);
+                        } else if ev == "p" {
+                            script.push(RDir::Pending);
+                        } else if ev == "e" {
+                            io.eof_at_end = true;
+                            script.push(RDir::Go(usize::MAX));
+                        }
+                    }
+                }
+                io.incoming = server.iter().copied().collect();
+                io.rscript = script.into();
+                io.unified = Some(if fields[2] == "-" { Default::default() } else { fields[2].split(',').map(|x| x.to_string()).collect() });
+                let mut plans = vec![];
+                for c in fields[3].split(',') {
+                    let mut it = c.split(':');
+                    let a = it.next().unwrap_or("-");
+                    let n: usize = it.next().and_then(|x| x.parse().ok()).unwrap_or(0);
+                    let args = if a == "-" { vec![] } else { unhex(a) };
+                    plans.push(CmdPlan { cmd: Command { args, next_state: None }, abandon_after: Some(n) });
+                }
+                println!("server {}", show_bytes(&server));
+                exec_session(&mut ctx, io, server, plans, &prop);
             } else {
                 let r = ctx.model.eval_batch(&[line.to_string()]);
                 println!("op    {}", clip(line, 400));
